@@ -262,6 +262,14 @@ def discharge_assert(an, body, t, blk=None):
                 if ca_.split("@")[0] in (nconst, str(call[2].args[1]) + "_usize") and cb_.split("@")[0].startswith("core::slice::<impl [") and canon(peel(an.op(body, t["ops"][1]), widen=True)).split("(", 1)[1].rsplit(")", 1)[0].lstrip("&*") == canon(peel(call[3][0])).lstrip("&*") \
                         and body.edge_dominates((sb, none_t[0]), blk):
                     return True, "subtraction on the None edge of %s::<%s>() at %s: the slice is shorter than %s there" % (call[2].npath.rsplit("::", 1)[1], call[2].args[1], body.line(sb), call[2].args[1])
+        # `a.len() - b.len()` where b is a tail of a (nfsa/suffix.py: remainders of parsers are tails of their input)
+        if getattr(an, "prog", None) is not None:
+            if not hasattr(an, "_suffix"):
+                from ..suffix import Suffix
+                an._suffix = Suffix(an.prog)
+            via = an._suffix.sub_is_safe(body, blk, t["ops"][0], t["ops"][1])
+            if via:
+                return True, "minuend is the length of a slice the subtrahend's slice is a tail of (parser remainders are tails of their input; related through %s)" % ", ".join("_%s" % (v,) if not isinstance(v, tuple) else "param %d" % v[1] for v in via[:3])
     ops = [canon(peel(an.op(body, o)))[:120] for o in t["ops"]]
     return False, "%s not discharged: operand(s) %s are not compile-time constants in a safe range" % (kind, ops)
 
